@@ -32,14 +32,29 @@ func focusMatches(p, foc string) bool {
 
 // genAnyWorld draws one of the analysable world kinds.
 func genAnyWorld(t *rapid.T) *World {
+	var w *World
 	switch rapid.IntRange(0, 2).Draw(t, "worldkind") {
 	case 0:
-		return GenWorld(t, GenCfg{NoNamedRisk: true})
+		w = GenWorld(t, GenCfg{NoNamedRisk: true})
 	case 1:
-		return GenWorld(t, GenCfg{Admin: true, NoNamedRisk: true})
+		w = GenWorld(t, GenCfg{Admin: true, NoNamedRisk: true})
 	default:
-		return GenIngressWorld(t, true)
+		w = GenIngressWorld(t, true)
 	}
+	// now and then a real workload carries the name the tool reserves for its fake Ingress source
+	if len(w.Workloads) > 0 && rapid.IntRange(0, 9).Draw(t, "anyreserved") == 0 {
+		i := rapid.IntRange(0, len(w.Workloads)-1).Draw(t, "anyreservedwl")
+		clash := false
+		for j := range w.Workloads {
+			if j != i && w.Workloads[j].Ns == w.Workloads[i].Ns && w.Workloads[j].Name == "ingress-controller" {
+				clash = true
+			}
+		}
+		if !clash {
+			w.Workloads[i].Name = "ingress-controller"
+		}
+	}
+	return w
 }
 
 // ---------- C16 ----------
@@ -176,6 +191,23 @@ func checkFocus(cc *C16Case, focus, dir string, base *ListRes, st *VStats) *VFai
 	}
 	if fmt.Sprint(exp) != fmt.Sprint(got) {
 		return vfail("focus %q is not a pure filter of the full report\nexpected (filtered full report): %v\nfocused report:                  %v", c.Focus, exp, got)
+	}
+	// independent of the tool's own peer list: a workload OF THE INPUT that matches the focus must not be declared absent
+	inWorld := false
+	for i := range cc.W.Workloads {
+		if focusMatches(cc.W.Workloads[i].PeerString(), c.Focus) {
+			inWorld = true
+		}
+	}
+	if inWorld {
+		for _, e := range fr.Errs {
+			if strings.Contains(e.Msg, "does not exist") && strings.Contains(e.Msg, c.Focus) {
+				return vfail("focus %q: the input holds a workload of that name, yet the run warns %q", c.Focus, e.Msg)
+			}
+		}
+		if !exists {
+			return vfail("focus %q: the input holds a workload of that name, but no peer of the unfocused report matches it (peers %v)", c.Focus, base.Wls)
+		}
 	}
 	if !exists {
 		st.Class("focus matches no workload")
